@@ -19,7 +19,9 @@ Headline theorems (all for every history — no bound on length, sizes, windows)
   (`refusal_closes_without_flushing_counterexample` shows why the refusal path is excluded);
 * `conforming_peer_never_refused` — over a FIFO pair, with any application behaviour on both sides and
   any delivery order, no packet is ever answered with the "too much data" close;
-* `receiver_window_replenished` — while the channel is open the local window is never left at 0.
+* `receiver_window_replenished` — while the channel is open the local window is never left at 0;
+* `writeSequence_is_one_write_of_the_pieces_in_order`, `writeSequence_never_exceeds_window_or_maxpacket` —
+  `writeSequence` is one `write` of the joined pieces (so all of the above covers it).
 
 End to end, over the FIFO pair started by the open handshake (any windows, maximum packets ≥ 1), for every
 conforming history (any application calls on both sides, any delivery order) — lemmas in `C36/Pair.lean`:
@@ -391,4 +393,27 @@ example :
     r.1.a.localClosed = true ∧ r.1.qab = [] ∧ gotD .B r.2 = [1, 2, 3] ∧ gotE .B 1 r.2 = [4] ∧
     wroteOpen .A p0 ops = [1, 2, 3] ∧ wrote .A ops = [1, 2, 3, 9] := by decide
 
+/-! ### `writeSequence`
+
+`SSHChannel.writeSequence(pieces)` is `self.write(b"".join(pieces))`: whatever iterable the pieces come in (list,
+tuple, one-shot generator — the tie runs all three), it is ONE `write` of the pieces in order.  The driver maps a
+`writeSequence` call of a history to `In.write (joinPieces ds)`, so every theorem above, being about all
+histories of `In`, covers histories with `writeSequence` calls; the two statements below make that explicit. -/
+
+theorem writeSequence_is_one_write_of_the_pieces_in_order (c : Chan) (ds : List Bytes) :
+    writeSequence c ds = step c (.write (joinPieces ds)) ∧ joinPieces ds = ds.flatten := by
+  refine ⟨rfl, ?_⟩
+  induction ds with
+  | nil => rfl
+  | cons d ds ih => simp [joinPieces, ih]
+
+theorem writeSequence_never_exceeds_window_or_maxpacket (c : Chan) (ds : List Bytes) :
+    lenSum (sentMsgs (writeSequence c ds).2) + (writeSequence c ds).1.rwl ≤ c.rwl ∧
+    ∀ m ∈ sentMsgs (writeSequence c ds).2, mLen m ≤ c.rmp := by
+  have h := sent_never_exceeds_window_or_maxpacket [.write (joinPieces ds)] c
+  simpa [run, adjIn, adjIn1, writeSequence, step] using h
+
+example :
+    sentMsgs (writeSequence (fresh 100 4 8 8) [[1, 2], [], [3, 4, 5, 6, 7, 8, 9, 10, 11, 12]]).2 =
+      [.data [1, 2, 3, 4], .data [5, 6, 7, 8], .data [9, 10, 11, 12]] := by decide
 end TwistedProps.C36
